@@ -718,7 +718,13 @@ class DefaultModelInputConverter(ModelInputConverter):
       self, array: np.ndarray
   ) -> List[Optional[pyvizier.ParameterValue]]:
     """Convert and clip to the nearest feasible parameter values."""
-    array = self.scaler.backward_fn(self.onehot_encoder.backward_fn(array))
+    array = self.onehot_encoder.backward_fn(array)
+    if self._getter_spec.type == NumpyArraySpecType.CONTINUOUS:
+      # Unscale in this converter's own precision whatever the caller's array
+      # type is: float32 (jax) inputs would overflow to inf for bounds beyond
+      # the float32 range and the parameter would be dropped.
+      array = np.asarray(array, dtype=self._getter_spec.dtype)
+    array = self.scaler.backward_fn(array)
     return [self._to_parameter_value(v) for v in list(array.flatten())]
 
   def _convert_index(self, trial: pyvizier.TrialSuggestion):
